@@ -7,7 +7,7 @@ C = {}  # id -> (category, technique, text, note, design_ref)
 C['C09'] = ('exploration', 'runtime monitoring: exhaustive execution of the real partition function under a direct predicate oracle',
   'Executes helpers.ChunkSlice for every (N,T), 1<=T<=N<=1024, twice, checking non-empty/contiguous/ascending/disjoint/covering/balanced and call-to-call equality; the discovery path (NewVBucketDiscovery+static membership, Get and its metric) is executed for sampled (N,T,member). Exhaustive over the quantifier, so this is as strong as execution can be for a pure function.',
   'Trusts the Go runtime; the discovery path is sampled (quick 2000 triples, thorough ~70k), not exhaustive.', 'DESIGN.md §4 C09')
-C['C09'] = (C['C09'][0], C['C09'][1], C['C09'][2] + ' Wire kind: a member k/T started on top of a checkpoint file holding all N vBuckets requests exactly its chunk.', C['C09'][3], C['C09'][4])  # C09WIRE
+C['C09'] = (C['C09'][0], C['C09'][1], C['C09'][2] + ' Wire kind: a member k/T started on top of a checkpoint file holding all N vBuckets requests exactly its chunk; also on top of a file written under a narrower assignment (each vBucket of the chunk requested once).', C['C09'][3], C['C09'][4])  # C09WIRE
 NA = {}
 ids = [json.loads(l)['id'] for l in open(os.path.join(base, 'properties.jsonl'))]
 extra = os.path.join(base, 'tools', 'manifest_entries.json')
